@@ -35,7 +35,7 @@ ASSUMPTIONS = [
     "graphs that cannot be hashed at all (List[Path]) are not generated",
 ]
 MIN_CLASSES = {
-    "quick": {"cycle": 50, "shared": 100, "sealed-cycle": 20, "task-output-used": 50, "cross-process": 50, "cross-process:>=2-pre-tasks": 60, "golden": 100},
+    "quick": {"cycle": 50, "shared": 100, "sealed-cycle": 20, "task-output-used": 50, "cross-process": 50, "cross-process:>=2-pre-tasks": 30, "golden": 100},
     "thorough": {"cycle": 500, "shared": 1000, "sealed-cycle": 200},
 }
 MAX_NODES = {"quick": 6, "thorough": 10}
@@ -54,7 +54,7 @@ def variants(draw):
 def cases(ctx):
     @st.composite
     def _cases(draw):
-        bp = draw(bpl.blueprints(max_nodes=MAX_NODES[ctx.tier]))
+        bp = draw(bpl.blueprints(max_nodes=MAX_NODES[ctx.tier], own_param_outputs=True))
         n = len(bp["nodes"])
         idx = st.integers(0, n - 1)
         return {
@@ -232,7 +232,7 @@ def xproc_cases(ctx):
         # sets and dicts keyed by strings/bytes are where the string-hash seed can leak: more
         # lightweight tasks, several distinct pre-tasks per configuration, more init tasks
         weights = [(c, w * 3 if c == "LW" else w) for c, w in bpl.CLASS_WEIGHTS]
-        bp = draw(bpl.blueprints(max_nodes=MAX_NODES[ctx.tier] + 2, min_nodes=3, weights=weights, pre_pct=60))
+        bp = draw(bpl.blueprints(max_nodes=MAX_NODES[ctx.tier] + 2, min_nodes=3, weights=weights, pre_pct=60, own_param_outputs=True))
         return {"bp": bp, "variant": draw(st.one_of(st.none(), variants()))}
 
     return _cases()
